@@ -454,7 +454,7 @@ def perform_type_substitution(etype, type_map,
     supertypes = []
     for t in etype.supertypes:
         if t.is_parameterized():
-            supertypes.append(substitute_type_args(t, type_map))
+            supertypes.append(substitute_type_args(t, type_map, cond))
         else:
             supertypes.append(t)
     type_params = []
@@ -531,7 +531,8 @@ class TypeConstructor(AbstractType):
         type_map = {tp: type_args[i]
                     for i, tp in enumerate(self.type_parameters)}
         old_supertypes = self.supertypes
-        type_con = perform_type_substitution(self, type_map)
+        type_con = perform_type_substitution(self, type_map,
+                                             lambda t: False)
         etype = ParameterizedType(type_con, type_args)
         etype.t_constructor.supertypes = old_supertypes
         return etype
